@@ -220,6 +220,7 @@ def _finder_units():
                     return (
                         # flags stay well-typed and paired
                         len(got[1]) == len(got[2]) and all([isinstance(f, str) for f in got[1]])
+                        and all([got[2][i][0] == got[1][i] and isinstance(got[2][i][1], str) for i in range(len(got[1]))])
                         # the colon modes only matter in the section-first layouts
                         and implies(not colon_layout, got[0] == dflt[0])
                         # every section has a colon: nothing changes
